@@ -1,6 +1,6 @@
 SPECIFICATION TSpec
 CONSTANTS
-  Proc = {"g1", "g2", "g3", "anon"}
+  Proc = {"A", "B", "anon"}
   MaxIdx = 6
   MaxHolds = 1000000
   CASExclusive = TRUE
